@@ -309,6 +309,18 @@ func (d *Dialer) DialContext(ctx context.Context, urlStr string, requestHeader h
 		}
 	}()
 
+	if proxyURL != nil {
+		if deadline, ok := ctx.Deadline(); ok {
+			// The deadline was set on the connection to the proxy when it was
+			// dialed, but a proxy dialer may clear it when it is done (the
+			// SOCKS5 dialer does). Set it again so that the rest of the
+			// handshake is bounded by the handshake timeout.
+			if err := netConn.SetDeadline(deadline); err != nil {
+				return nil, nil, err
+			}
+		}
+	}
+
 	// Do TLS handshake over established connection if a proxy exists.
 	if proxyURL != nil && u.Scheme == "https" {
 
